@@ -174,6 +174,13 @@ struct ModelDisk : public DiskInterface {
     files[path] = MFile{clock, content, term};
     J("{\"j\":\"w\",\"n\":" + JEsc(path) + ",\"m\":" + to_string(clock) + ",\"t\":" + (term ? "true" : "false") + ",\"c\":" + JEsc(content) + "}");
   }
+  // a file written with a preserved, old modification time (cp -p, install -p)
+  void PutAt(const string& path, const string& content, bool term, int64_t mtime) {
+    ++clock;
+    files[path] = MFile{mtime, content, term};
+    J("{\"j\":\"w\",\"n\":" + JEsc(path) + ",\"m\":" + to_string(mtime) + ",\"t\":" + (term ? "true" : "false") + ",\"c\":" + JEsc(content) + "}");
+    J("{\"j\":\"clk\",\"v\":" + to_string(clock) + "}");
+  }
   bool WriteFile(const string& path, const string& contents, bool) override {
     if (!DirOk(path)) { errno = ENOENT; return false; }
     Put(path, contents, false);
@@ -523,8 +530,13 @@ struct ModelRunner : public CommandRunner {
     string k = "[";
     bool first = true;
     for (auto& r : g_inv->running) {
-      int partial = g_ch.Choose(2);
-      if (partial) {
+      // 0: killed before writing; 1: outputs partially written; 2: outputs that did not exist re-created with a preserved old time
+      int partial = g_ch.Choose(3);
+      if (partial == 2) {
+        for (auto& o : r.st->AllOuts())
+          if (!g_disk.files.count(o)) g_disk.PutAt(o, Term("partial", "e" + to_string(r.st->id), {}), true, 1);
+          else g_disk.Put(o, Term("partial", "e" + to_string(r.st->id), {}), true);
+      } else if (partial) {
         for (auto& o : r.st->AllOuts()) g_disk.Put(o, Term("partial", "e" + to_string(r.st->id), {}), true);
         if (r.st->deps == "depfile" || r.st->deps == "gcc")
           g_disk.Put(r.st->outs[0] + ".d", r.st->outs[0] + ": " + Join(r.st->hdrs) + "\n", false);
